@@ -283,6 +283,115 @@ def replay_bool(fail):
     return {"reproduced": False}
 
 
+def predicate_forms():
+    """the predicate words of parse_pred_expr, read from the tree's own source (first argument of lexer.matchIf)"""
+    import ast
+    import os
+    src = open(os.path.join(os.environ.get("VERIF_REPO", "/repo"), "src", "ckl", "parser.py")).read()
+    fn = [n for n in ast.parse(src).body if isinstance(n, ast.FunctionDef) and n.name == "parse_pred_expr"][0]
+    out = []
+    for n in ast.walk(fn):
+        if isinstance(n, ast.Call) and isinstance(n.func, ast.Attribute) and n.func.attr == "matchIf" and n.args:
+            a = n.args[0]
+            words = [a.value] if isinstance(a, ast.Constant) else [e.value for e in a.elts] if isinstance(a, ast.List) else []
+            w = " ".join(words)
+            if w and w not in ("is", "not", "is not", "matches", "matches not", "in", "None") and w not in out \
+                    and not any(x in w.split() for x in ("not", "starts", "ends", "contains")):
+                out.append(w)
+    return out
+
+
+PRED_VALUES = ["NULL", "TRUE", "FALSE", "0", "-1", "5", "0.0", "-2.5", "''", "'a'", "'-1'", "'12'", "'ab12'", "'20200101'", "'2020010112'", "'1230'", "'x y'",
+               "[]", "[1]", "<<>>", "<<1>>", "<<<>>>", "<<<1 => 2>>>", "<*a=1*>", "//a//", "date('20200101')", "fn(x) x", "length"]
+
+
+def isnot_cases():
+    def pair(pos, neg):
+        return (f"def a = do {pos}; catch all 'ERR'; end; def b = do {neg}; catch all 'ERR'; end; "
+                f"if a == 'ERR' or b == 'ERR' then a == b else b == (not a)", "TRUE")
+    for p in predicate_forms():
+        for v in PRED_VALUES:
+            yield pair(f"({v}) is {p}", f"({v}) is not {p}")
+    for v in ("'abc'", "''", "'a'", "'xabc'", "'abcx'"):
+        for u in ("'a'", "'abc'", "''", "'c'", "'bc'"):
+            yield pair(f"({v}) starts with {u}", f"({v}) starts not with {u}")
+            yield pair(f"({v}) ends with {u}", f"({v}) ends not with {u}")
+            yield pair(f"({v}) contains {u}", f"({v}) contains not {u}")
+    for v in PRED_VALUES:
+        for u in ("[1, 'a', NULL]", "<<1, 'a'>>", "'a1'", "<<<'a' => 1>>>"):
+            yield pair(f"({v}) is in {u}", f"({v}) is not in {u}")
+            yield pair(f"({v}) in {u}", f"({v}) not in {u}")
+        for u in PRED_VALUES[:12]:
+            yield pair(f"({v}) is {u}", f"({v}) is not {u}")
+
+
+def precedence_cases(seed, n):
+    """random expressions over small ints with + - * unary-, comparison chains, not/and/or: the language's precedence is
+    CPython's for these operators, so CPython's own evaluation of the same text is the reference"""
+    import random
+    rnd = random.Random(seed)
+
+    def arith(d):
+        if d == 0 or rnd.random() < 0.3:
+            return str(rnd.randint(0, 4))
+        r = rnd.random()
+        if r < 0.15:
+            return "-" + arith(0)
+        if r < 0.25:
+            return "(" + arith(d - 1) + ")"
+        return arith(d - 1) + " " + rnd.choice(["+", "-", "*"]) + " " + arith(d - 1)
+
+    def cmp_(d):
+        k = rnd.choice([1, 1, 2, 3])
+        s = arith(d)
+        for _ in range(k):
+            s += " " + rnd.choice(["<", "<=", ">", ">=", "==", "!="]) + " " + arith(d)
+        return s
+
+    def boolean(d):
+        if d == 0:
+            return cmp_(1)
+        r = rnd.random()
+        if r < 0.2:
+            return "not " + boolean(d - 1) if rnd.random() < 0.5 else "not " + cmp_(1)
+        if r < 0.3:
+            return "(" + boolean(d - 1) + ")"
+        return boolean(d - 1) + " " + rnd.choice(["and", "or"]) + " " + boolean(d - 1)
+    for _ in range(n):
+        e = boolean(rnd.randint(1, 3)) if rnd.random() < 0.6 else arith(rnd.randint(1, 4))
+        if "not not" in e:
+            continue
+        v = eval(e)
+        yield e, ("TRUE" if v else "FALSE") if isinstance(v, bool) else str(v)
+
+
+def _run_cases(it, errs, cases, ident):
+    fails, ev = [], 0
+    for src, exp in cases:
+        ev += 1
+        try:
+            obs = str(it.interpret(src, "-"))
+        except errs.CklRuntimeError as e:
+            obs = "ERR"
+        except Exception as e:
+            obs = "HOST:" + repr(e)
+        if obs != exp:
+            fails.append({"id": ident, "input": src, "observed": obs, "expected": exp})
+    return fails, ev
+
+
+def replay_grammar(fail):
+    it = _interp()
+    errs = __import__("ckl.errors").errors
+    for cases, ident in ((isnot_cases(), "bounded:is-not-is-negation"), (precedence_cases(0, 3000), "bounded:precedence")):
+        f, _ = _run_cases(it, errs, cases, ident)
+        if f:
+            r = dict(f[0])
+            r["reproduced"] = True
+            return r
+    return {"reproduced": False}
+
+
 def bounded(tier, seed):
     import time
     t0 = time.time()
@@ -310,7 +419,15 @@ def bounded(tier, seed):
             obs = "HOST:" + repr(e)
         if obs != exp:
             fails.append({"id": "bounded:boolean-operators", "input": src, "observed": obs, "expected": exp})
+    t1 = time.time()
+    f2, e2 = _run_cases(it, errs, isnot_cases(), "bounded:is-not-is-negation")
+    f3, e3 = _run_cases(it, errs, precedence_cases(seed, 20000 if tier == "thorough" else 4000), "bounded:precedence")
     return [BoundedResult("exact integer arithmetic and boolean operators at language level (CPython cross-check)",
                           f"all ordered pairs of {len(BIG)} boundary integers (to 10^30) for + - * / %, NULL/decimal kinds, 10 short-circuit programs",
                           ev, ev, fails, ["(2**64+3) / (-7)"], "guards the engine's integer encoding and the spec functions against CPython",
-                          time.time() - t0)]
+                          t1 - t0),
+            BoundedResult("predicate forms and precedence at language level",
+                          f"every predicate word of parse_pred_expr (read from the source) x {len(PRED_VALUES)} values: `v is not P` == not `v is P`; "
+                          f"`in`/`is` negations; random expressions (depth <= 4) over + - * unary -, comparison chains, not/and/or against CPython's evaluation of the same text",
+                          e2 + e3, e2 + e3, (f2 + f3)[:10], ["def v = [1]; v is not list", "1 + 2 * 3 < 4 + 4 and not 2 < 1 <= 1"],
+                          "cross-check and replay source for the parser contracts of part 2", time.time() - t1)]
